@@ -1,6 +1,7 @@
 //! Registry: property id -> clauses.
 use crate::core::Clause;
 
+pub mod c01;
 pub mod c02;
 pub mod c03;
 pub mod c04;
@@ -9,12 +10,14 @@ pub mod c06;
 pub mod c13;
 pub mod c14;
 pub mod c15;
+pub mod c17;
 pub mod common;
 
 pub const PROPERTIES: [&str; 18] = ["C01", "C02", "C03", "C04", "C05", "C06", "C07", "C08", "C09", "C10", "C11", "C12", "C13", "C14", "C15", "C16", "C17", "C18"];
 
 pub fn clauses(property: &str) -> Vec<Clause> {
     match property {
+        "C01" => c01::clauses(),
         "C02" => c02::clauses(),
         "C03" => c03::clauses(),
         "C04" => c04::clauses(),
@@ -23,12 +26,15 @@ pub fn clauses(property: &str) -> Vec<Clause> {
         "C13" => c13::clauses(),
         "C14" => c14::clauses(),
         "C15" => c15::clauses(),
+        "C17" => c17::clauses(),
         _ => vec![],
     }
 }
 
 pub fn property_rule(property: &str) -> String {
     match property {
+        "C01" => "composed chain vs stand-alone inner + stand-alone wrapper over Echo (bit-identical), Probe leaves for exactly-once in-order delivery, combining nodes present iff both children".into(),
+        "C17" => "twins, repeated last(), clones with same and divergent continuations; bit-exact".into(),
         "C02" => "windowed view run in exact arithmetic (and f64) vs the batch definition over exactly the last N raw values, every step".into(),
         "C03" => "two runs of the same view on histories with different prefixes and a common suffix agree once K suffix values are consumed".into(),
         "C04" => "Sma / Ema / Alma: span bounds, constant reproduction, monotonicity, affine equivariance, EMA recurrence, ALMA kernel definition".into(),
@@ -47,6 +53,12 @@ pub fn property_assumptions(property: &str) -> Vec<String> {
         "proptest 1.11 generators and shrinking; a run is a pure function of (/repo tree, VERIF_SEED, tier)".to_string(),
     ];
     match property {
+        "C01" => {
+            v.push("depth <= 3: the property is about one wrapper boundary; all pairs are enumerated, deeper trees are sampled".into());
+            v.push("the moving average embedded in EFT / PFE sits over its own Echo and never sees raw input: its leaf is not a delivery probe".into());
+            v.push("windows below a view's listed-finding threshold (CyberCycle, PFE < 3; EFT, Roofing < 2) are excluded by construction (they panic or diverge: C15)".into());
+        }
+        "C17" => v.push("a tree containing Add cannot be cloned (Add does not implement Clone): the clone clause is skipped for it and counted".into()),
         "C02" => {
             v.push("Q (exact rational scalar) models the num::Float operations the crate uses: + - * / comparisons exactly, sqrt/log2 to 2^-192".into());
             v.push("f64 leg: dyadic inputs |x| <= 2^15, tolerance 1e-9 x largest magnitude seen (3.3e-5 x for a std, 1e-6 relative for std ratios on windows with var >= 1e-6 max|x|^2; flat or nearly flat windows are exempt there and belong to C16)".into());
